@@ -210,6 +210,16 @@ pub fn damage_bucket_bytes(cur: &[u8], dmg: &BDamage) -> Vec<u8> {
             }
         }
         BDamage::BecomeDir => {}
+        BDamage::CrBeforeLf(n) => {
+            // the first LF starts the first record (nothing before it): use later ones
+            if lf_positions.len() >= 2 {
+                let pos = lf_positions[1 + n % (lf_positions.len() - 1)];
+                b.insert(pos, b'\r');
+            } else if !b.is_empty() {
+                // a single record: CRLF-terminate it at the end of the file
+                b.extend_from_slice(b"\r\n");
+            }
+        }
     }
     b
 }
